@@ -17,6 +17,7 @@ BOUND_TEXT = {
     'conn2': 'CONN2: two connection choices active together (permanent; infeasible existence pattern in the first / last; second one conditional)',
     'forced': 'FORCED: choices without a design variable (LINKED members, forced by incompatibilities) before free/conditional choices',
     'conx': 'CONX: constrained choices mutually exclusive or with the first constrained choice inactive while later ones are active, 4 constraint types',
+    'conpart': 'CONPART: 4 choices of which 2 are constrained (LINKED / UNORDERED), 2 free',
     'dvmet': 'DV/MET: continuous/discrete design-variable nodes and metric nodes (dir x ref x type) under permanent and conditional nodes',
 }
 
